@@ -34,6 +34,10 @@ def register():
     import p_page
     REGISTRY["C06"] = (p_page.run_c06, "proof")
     REGISTRY["C07"] = (p_page.run_c07, "proof")
+    import p_frame
+    REGISTRY["C01"] = (p_frame.run_c01, "proof")
+    REGISTRY["C02"] = (p_frame.run_c02, "proof")
+    REGISTRY["C03"] = (p_frame.run_c03, "proof")
     import p_signtype
     REGISTRY["C19"] = (p_signtype.run_c19, "proof")
 
